@@ -500,7 +500,9 @@ class _TotalJacInfo(object):
                                                           return_format)
         
         # Store which VOIs require unit scaling if we're computing an optimization jacobian.
-        if not has_custom_derivs:
+        # Driver scaling is requested by VOI name also for a custom subset / ordering of the
+        # driver's VOIs, so the unit scaling it builds on must be applied in that case too.
+        if not has_custom_derivs or (driver_scaling and driver):
             self._identify_unit_active_vars()
 
         # Apply explicit unit conversions requested by the functional API.
